@@ -161,6 +161,11 @@ theorem close_setB (ob : Option BatchSt) (s : St) : close (setB ob s) = close s 
   obtain ⟨w, d⟩ := s
   cases d <;> rfl
 
+theorem backup_setB (ob : Option BatchSt) (s : St) (dest : String) :
+    backup (setB ob s) dest = (setB ob (backup s dest).1, (backup s dest).2) := by
+  obtain ⟨w, d⟩ := s
+  cases d <;> rfl
+
 /-! ## `Merge` commutes with `setB` -/
 
 def setSM (ob : Option BatchSt) (x : St × MergeSt) : St × MergeSt := (setB ob x.1, x.2)
